@@ -521,12 +521,14 @@ SignalHandler::SignalHandler(BasicSolver &s)
   MP_VERIF_POINT("sh.ctor.after_msg_ptr");
   signal_message_size_ = static_cast<unsigned>(message_.size());
   MP_VERIF_POINT("sh.ctor.after_msg_size");
+  // Reset the stop flag *before* installing the handlers: a signal
+  // arriving after signal() must not be wiped out.
+  stop_ = 0;
+  MP_VERIF_POINT("sh.ctor.after_stop0");
   std::signal(SIGINT, HandleSigInt);
   MP_VERIF_POINT("sh.ctor.after_signal_int");
   std::signal(SIGTERM, HandleSigInt);
   MP_VERIF_POINT("sh.ctor.after_signal_term");
-  stop_ = 0;
-  MP_VERIF_POINT("sh.ctor.after_stop0");
 }
 
 SignalHandler::~SignalHandler() {
